@@ -402,6 +402,30 @@ func checkSurvivor(t pbt.TB, c CrashCase, db gdbi.GraphDB, before, after hist.Wo
 			}
 		}
 	}
+	// (3) a graph that does not exist after the reopen leaves nothing behind that a later
+	// graph of the same name could inherit ("every ... label-index entry refers to an
+	// existing element"): created again, it is empty - also in its label listings and
+	// label lookups - and what is written to it is listed under its own label only
+	for _, ln := range hist.Graphs {
+		real := names.Real(ln)
+		if listed[real] {
+			continue
+		}
+		if err := db.AddGraph(real); err != nil {
+			return pbt.Discrepancy(t, c, "crash:"+inflight.Kind+":cannot-recreate", "%s: graph %s does not exist after the reopen and cannot be created: %v", where, ln, err)
+		}
+		gi, err := db.Graph(real)
+		if err != nil {
+			return pbt.Discrepancy(t, c, "crash:"+inflight.Kind+":cannot-recreate", "%s: graph %s created after the reopen: Graph() fails: %v", where, ln, err)
+		}
+		got := obs.OfGraph(gi, histrun.Universe)
+		want := obs.OfModel(&model.Graph{}, histrun.Universe)
+		if d := obs.Diff(got, want); len(d) > 0 {
+			pbt.Class(t, "recreated-after-crash")
+			return pbt.Discrepancy(t, c, "crash:"+inflight.Kind+":recreated-graph-inherits:"+obs.Method(d[0]), "%s: graph %s did not exist after the reopen; created again it is not empty: %s (+%d more)", where, ln, d[0], len(d)-1)
+		}
+		pbt.Class(t, "recreated-after-crash")
+	}
 	return true
 }
 
